@@ -95,7 +95,91 @@ func minHandlers(div divFn, prios []uint, limit uint) uint {
 	return 0
 }
 
+// genStarvedRm: a v1 configuration in which some priority m has no share until another priority
+// X is removed; after RemoveInput(X) has returned every remaining priority (and every subset)
+// has one, so everything written to the remaining inputs must be delivered again.
+func genStarvedRm(rng *rand.Rand, g prioGen) PrioScenario {
+	sc := PrioScenario{Seed: rng.Uint64(), Ver: "v1"}
+	var prios []uint
+	var m, X uint
+	found := false
+	for try := 0; try < 40 && !found; try++ {
+		sc.Divider = g.Dividers[rng.IntN(len(g.Dividers))]
+		sc.DivSeed = rng.Uint64N(1000)
+		div := customDivider(sc.Divider, sc.DivSeed)
+		pool := prioValuePools[rng.IntN(6)]
+		n := min(3+rng.IntN(3), len(pool))
+		prios = prios[:0]
+		for _, i := range rng.Perm(len(pool))[:n] {
+			prios = append(prios, pool[i])
+		}
+		sort.Slice(prios, func(i, j int) bool { return prios[i] > prios[j] })
+		for _, h := range rng.Perm(24) {
+			H := uint(h + 1)
+			d := sharesOf(div, prios, H)
+			var zeros []uint
+			for _, p := range prios {
+				if d[p] == 0 {
+					zeros = append(zeros, p)
+				}
+			}
+			if len(zeros) == 0 {
+				continue
+			}
+			m = zeros[rng.IntN(len(zeros))]
+			for _, xi := range rng.Perm(len(prios)) {
+				if prios[xi] == m {
+					continue
+				}
+				rest := append(append([]uint{}, prios[:xi]...), prios[xi+1:]...)
+				if bruteNonFatal(rest, func(p []uint, q uint, dd map[uint]uint) { div(p, q, dd) }, H) {
+					X, sc.H, found = prios[xi], H, true
+					break
+				}
+			}
+			if found {
+				break
+			}
+		}
+	}
+	if !found {
+		sc.Divider, prios, sc.H, m, X = "fair", []uint{5, 4, 3, 2}, 3, 2, 5
+	}
+	H := int(sc.H)
+	sc.Starved = true
+	sc.StarveEndsAtRm = &X
+	sc.OutCap = []int{0, 1, H, 2*H + 4}[rng.IntN(4)]
+	sc.FbCap = []int{0, 1, H, 2 * H}[rng.IntN(4)]
+	for _, p := range prios {
+		sc.Inputs = append(sc.Inputs, PInputSpec{P: p, Cap: []int{0, 1, 4 * H}[rng.IntN(3)]})
+	}
+	w := func(p uint) { sc.Script = append(sc.Script, POp{K: "W", P: p, N: 1 + rng.IntN(2*H+2)}) }
+	rel := func() {
+		sc.Script = append(sc.Script, POp{K: "D"}, POp{K: "R", Mode: []string{"all", "random", "oldest"}[rng.IntN(3)], N: 1 + rng.IntN(H)}, POp{K: "D"})
+	}
+	for i := 0; i < 1+rng.IntN(3); i++ {
+		w(prios[rng.IntN(len(prios))])
+	}
+	if rng.IntN(2) == 0 {
+		w(m)
+	}
+	rel()
+	sc.Script = append(sc.Script, POp{K: "rm", P: X}, POp{K: "D"}, POp{K: "R", Mode: "all"}, POp{K: "D"})
+	w(m)
+	for i := 0; i < rng.IntN(3); i++ {
+		p := prios[rng.IntN(len(prios))]
+		if p != X {
+			w(p)
+		}
+	}
+	rel()
+	return sc
+}
+
 func genPrioScenario(rng *rand.Rand, g prioGen) PrioScenario {
+	if g.Mode == "starvedrm" {
+		return genStarvedRm(rng, g)
+	}
 	sc := PrioScenario{Seed: rng.Uint64()}
 	sc.Ver = g.Vers[rng.IntN(len(g.Vers))]
 	sc.Divider = g.Dividers[rng.IntN(len(g.Dividers))]
@@ -274,6 +358,7 @@ func genPrioScenario(rng *rand.Rand, g prioGen) PrioScenario {
 			sc.Inputs = append(sc.Inputs, PInputSpec{P: p, Cap: m, Prefill: m})
 		}
 		sc.Saturate = true
+		removedOne := false
 		sc.Script = append(sc.Script, POp{K: "D"}, POp{K: "X"})
 		modes := []string{"one", "prio", "allbut1", "random", "all", "oldest", "newest"}
 		for i := 0; i < groups; i++ {
@@ -288,6 +373,21 @@ func genPrioScenario(rng *rand.Rand, g prioGen) PrioScenario {
 				// AddInput with the same channel for a configured priority: the configured
 				// priorities, the inputs and the shares all stay what they were
 				sc.Script = append(sc.Script, POp{K: "readd", P: prios[rng.IntN(len(prios))]})
+			}
+			if sc.Ver == "v1" && !smallBuffers && !removedOne && len(prios) >= 3 && i >= 2 && rng.IntN(5) == 0 {
+				// RemoveInput of one saturated input: once its items have been released the
+				// others share all the handlers according to the divider for the remaining set
+				rest := make([]uint, 0, len(prios))
+				victim := prios[rng.IntN(len(prios))]
+				for _, p := range prios {
+					if p != victim {
+						rest = append(rest, p)
+					}
+				}
+				if good(rest, sc.H) {
+					removedOne = true
+					sc.Script = append(sc.Script, POp{K: "rm", P: victim}, POp{K: "R", Mode: "all"}, POp{K: "D"}, POp{K: "R", Mode: "all"}, POp{K: "D"}, POp{K: "X"})
+				}
 			}
 			sc.Script = append(sc.Script, POp{K: "D"}, POp{K: "X"})
 		}
@@ -618,6 +718,31 @@ func genPrioScenario(rng *rand.Rand, g prioGen) PrioScenario {
 		}
 		if at[len(sc.Script)] {
 			emit()
+		}
+		if rng.IntN(5) == 0 {
+			// end game: GracefulStop() is requested while an input is still open (so the
+			// discipline cannot end yet), and only then that input is taken out with
+			// RemoveInput - optionally after one more AddInput whose channel is served and closed
+			var free []uint
+			for _, p := range extra {
+				if !present[p] {
+					free = append(free, p)
+				}
+			}
+			if len(free) >= 1 {
+				keep := free[0]
+				out = append(out, POp{K: "add", P: keep, Cap: 1 + rng.IntN(3)}, POp{K: "D"}, POp{K: "graceful"}, POp{K: "D"})
+				present[keep] = true
+				if len(free) >= 2 && rng.IntN(2) == 0 {
+					n := 1 + rng.IntN(H+2)
+					out = append(out, POp{K: "add", P: free[1], Cap: capOf(n)}, POp{K: "W", P: free[1], N: n}, POp{K: "C", P: free[1]}, POp{K: "D"}, POp{K: "R", Mode: "all"}, POp{K: "D"})
+					present[free[1]] = true
+				}
+				out = append(out, POp{K: "rm", P: keep}, POp{K: "D"})
+				present[keep] = false
+				sc.Script = out
+				return sc
+			}
 		}
 		if rng.IntN(3) == 0 {
 			// end game: everything closed and drained, graceful stop pending, only the items of
